@@ -1053,7 +1053,9 @@ thread_local int tl_worker = -1;
 thread_local EpochManager *tl_em = nullptr;  // mode=epochduo: the manager the thread is calling into (classification)
 thread_local int tl_duo_m = -1;
 std::atomic<uint64_t> g_stale_m[2];
-std::atomic<uint64_t> g_fwd_begin_epoch[2];  // global epoch from which the latest ForwardGlobalEpoch of a manager started
+std::atomic<uint64_t> g_fwd_begin_epoch[2];
+bool g_ep_step = false;
+std::atomic<uint64_t> g_ep_exit_arms{0};  // global epoch from which the latest ForwardGlobalEpoch of a manager started
 std::atomic<bool> g_fast_hold{false};  // sub-workload D: short guard holds, short thread lifetimes
 
 inline EpochManager *
@@ -1125,6 +1127,17 @@ PointCb(int id, const void *obj)
       break;
     }
     case kEpochLookupStep: ClassifyLookup(); break;
+    case kIdExitBegin:
+      // instruction stepper in the exit path of a worker: a stall at one instruction boundary of ~HeartBeater while
+      // the churner starts the successor onto the ID being vacated
+      if (g_ep_step && (t_chaos.rng.Next() & 1) == 0) {
+        g_ep_exit_arms.fetch_add(1, kRlx);
+        StepArm(1 + t_chaos.rng.Below(160), t_chaos.rng.Range(40000, 400000));
+      }
+      break;
+    case kIdExitEnd:
+      if (g_ep_step) StepDisarm();  // never step into the C library's thread exit (it blocks signals)
+      break;
     case kEpochForwardBegin: g_fwd_begin_epoch[tl_duo_m > 0 ? 1 : 0].store(em->GetCurrentEpoch(), kMo); break;
     default: break;
   }
@@ -1374,6 +1387,10 @@ Run()
   sa.sa_flags = SA_SIGINFO;
   sigaction(SIGSEGV, &sa, nullptr);
   sigaction(SIGBUS, &sa, nullptr);
+  if (VERIF_STEPPER && g_cfg.step != 0) {
+    StepperInstall();
+    g_ep_step = true;
+  }
 
   Rng r;
   r.Seed(g_cfg.seed * 7777 + kN);
@@ -1612,6 +1629,10 @@ Run()
   res.Add("quiescent_checks", quiescent_checks);
   res.Add("stale_epoch_publications", g_stale_publications.load());
   res.Add("lookups_stalled_across_node_retirement", g_long_lookup_stalls.load());
+  if (g_ep_step) {
+    res.Add("stepper_arms_in_exit_path", g_ep_exit_arms.load());
+    res.Add("stepper_stalls_at_single_instructions", g_step_stalls.load());
+  }
   PreempterStop();
   res.counters["max_final_epoch"] = prev;
   res.signatures.push_back(Fmt("epoch:N=%zu:sub=%s", kN, g_cfg.sub.c_str()));
@@ -2127,6 +2148,11 @@ WorkerLoop(EpochManager *em0, EpochManager *em1, Cmd *c, int64_t probe_start)
       c->epoch.store(guard_b.GetProtectedEpoch());
     } else if (op == 10) {
       guard_b = EpochGuard{};
+    } else if (op == 11 || op == 12) {
+      // this worker acts as the coordinator for one call (whatever guards it holds itself)
+      tl_cur_mgr = op == 11 ? 0 : 1;
+      (op == 11 ? em0 : em1)->ForwardGlobalEpoch();
+      tl_cur_mgr = -1;
     } else if (op == 7) {
       c->epoch.store(IDManager::GetThreadID());
     } else if (op == 1) {
@@ -2189,7 +2215,7 @@ Run()
   InstallSeqCrashHandler("C20");
   const uint64_t histories = 6 * g_cfg.scale;
   uint64_t total_forwards = 0, total_checks = 0, max_nodes = 0, boundaries = 0, managers = 0, overwrites = 0, respawns = 0, id_reuses = 0;
-  uint64_t second_guards = 0, second_first = 0, first_first = 0;
+  uint64_t second_guards = 0, second_first = 0, first_first = 0, forwards_by_workers = 0, forwards_by_guard_holders = 0;
   std::set<std::string> sigs;
   for (uint64_t h = 0; h < histories; ++h) {
     const auto base_nodes = g_aligned_live.load();
@@ -2218,11 +2244,28 @@ Run()
     for (uint64_t s = 0; s < steps && !stop; ++s) {
       if (r.Below(100) < p_forward || nw == 0) {
         const int m = (two_managers && r.Chance(1, 4)) ? 1 : 0;
-        tl_cur_mgr = m;
         g_long_phase.store(1, kRlx);
-        em[m]->ForwardGlobalEpoch();
+        if (nw > 0 && r.Chance(1, 4)) {
+          // one of the workers is the coordinator this time - possibly one that holds a guard of this manager
+          auto *fw = ws[r.Below(nw)].get();
+          for (auto &w : ws) {
+            if (w->mgr == m || w->mgr2 == m) {
+              if (r.Chance(1, 2)) fw = w.get();
+              break;
+            }
+          }
+          Do(*fw, m == 0 ? 11 : 12);
+          ++forwards_by_workers;
+          if (fw->mgr == m || fw->mgr2 == m) {
+            ++forwards_by_guard_holders;
+            sigs.insert(Fmt("model:N=%zu:forward-called-by-a-thread-that-holds-a-guard", kN));
+          }
+        } else {
+          tl_cur_mgr = m;
+          em[m]->ForwardGlobalEpoch();
+          tl_cur_mgr = -1;
+        }
         g_long_phase.store(0, kRlx);
-        tl_cur_mgr = -1;
         ++cur[m];
         g_long_epoch.store(cur[m], kRlx);
         ++total_forwards;
@@ -2392,6 +2435,8 @@ Run()
   res.Add("node_boundaries_crossed", boundaries);
   res.Add("guards_assigned_over_live_guard_of_other_manager", overwrites);
   res.Add("second_guards_of_the_other_manager_in_one_thread", second_guards);
+  res.Add("forwards_called_by_worker_threads", forwards_by_workers);
+  res.Add("forwards_called_by_a_thread_that_holds_a_guard", forwards_by_guard_holders);
   res.Add("two_guards_destroyed_last_in_first_out", second_first);
   res.Add("two_guards_destroyed_in_creation_or_other_order", first_first);
   res.Add("worker_threads_replaced", respawns);
